@@ -15,6 +15,11 @@ def main():
     ap.add_argument("--all", action="store_true", help="run every property's check against each change")
     ap.add_argument("--tier", default="quick")
     a = ap.parse_args()
+    import fcntl
+    os.makedirs(os.path.join(VERIF, "lean", ".lake"), exist_ok=True)
+    lock = open(os.path.join(VERIF, "lean", ".lake", "repo.lock"), "w")
+    fcntl.flock(lock, fcntl.LOCK_EX)          # no check may run while /repo is patched
+    os.environ["VERIF_REPO_LOCK_HELD"] = "1"
     assert sh(["git", "-C", "/repo", "status", "--porcelain"]).stdout.strip() == "", "/repo has uncommitted changes"
     props = sorted(json.loads(l)["id"] for l in open(os.path.join(VERIF, "properties.jsonl")))
     rows = []
